@@ -37,6 +37,10 @@ Section Mon.
                | None => true
                end) blocks.
   Definition view_ok (v : view) : bool := chain_ok v && tag_ok v && no_pending_in_ended v && after_block_ok v.
+  (* hypothesis of the pending-interrupt theorem, evaluated on every method: parent pointers and child lists describe the
+     same tree (a node lies among the descendants of each of its block ancestors) *)
+  Definition tree_ok_b : bool :=
+    forallb (fun i => forallb (fun b => negb (is_block p b) || memn i (descendants p b)) (ancestors p i)) (seq 0 (length p)).
 End Mon.
 
-Definition holds_b (i : input) (o : output) : bool := forallb (view_ok (fst i)) o.
+Definition holds_b (i : input) (o : output) : bool := tree_ok_b (fst i) && forallb (view_ok (fst i)) o.
